@@ -1281,7 +1281,9 @@ class RTCSctpTransport(AsyncIOEventEmitter):
         if chunk.gaps:
             # only the TSNs up to the highest outstanding one matter, do not
             # spend time on gap blocks beyond it
-            if self._sent_queue:
+            if self._sent_queue and uint32_gt(
+                self._sent_queue[-1].tsn, chunk.cumulative_tsn
+            ):
                 limit = (
                     self._sent_queue[-1].tsn - chunk.cumulative_tsn
                 ) % SCTP_TSN_MODULO
